@@ -1,5 +1,6 @@
 import BadgerModel.Driver.Codec
 import BadgerModel.Driver.Mvcc
+import BadgerModel.Driver.Gc
 import BadgerModel.Driver.Loop
 /-! `bmdriver <engine>`: reads one op per line on stdin, prints one canonical output line per op. -/
 open Badger.Driver
@@ -10,4 +11,5 @@ def main (args : List String) : IO UInt32 := do
   match args with
   | ["codec"] => statelessLoop stdin stdout codecStep; return 0
   | ["mvcc"] => statefulLoop stdin stdout mvccStep (Badger.Db.init {} 0); return 0
+  | ["gc"] => statefulLoop stdin stdout gcStep ({} : GcDrv); return 0
   | _ => IO.eprintln "usage: bmdriver <engine>"; return 2
